@@ -17,7 +17,7 @@ CHECKS = {
          "State after every reopen and after overwrites following a reopen equals the model in all four process configurations.", "trusted: reference model", "3/C05"),
  "C09": ("exploration", "differential runtime monitoring: the same history re-run with the collector inserted at every position (probing order varied per variant); all probes must equal the collector-free model; role scheduled: the database's own scheduled collector job (1-250 ms) runs during writes whose content arrives slowly (3 ms - 1.3 s pauses), autocommit and transactional, inline and gRPC; snapshots held open across 1100-2600 overwrites of one key with passes in between",
          "For every base history the collector (and cleaner drain) is inserted at every position; no read of any actor changes, open readers read to the end.", "trusted: reference model; quiescence barrier", "3/C09"),
- "C11": ("exploration", "differential runtime monitoring through the real gRPC server and client vs the same reference model, exhaustive error-mapping round trips over a generated wrapping family, and inline-vs-gRPC comparison of server-side rejections (empty key, injected no-space) for contents from 0 bytes to 4 MiB; keys of 5000 and 70000 bytes; Begin without a level; thorough tier: handles held open for 50 s on both clients; a 25-call script per key through both clients over a grid of UTF-8 keys (rune widths 1-4, lengths 16-65536); gRPC handles whose Open context is done; failing metadata writes inside histories; ends retried after a dead-context attempt; readers with different views of one key on one handle at once; several handles to one server opened and closed independently; partly consumed sources; snapshot taken at Begin",
+ "C11": ("exploration", "differential runtime monitoring through the real gRPC server and client vs the same reference model, exhaustive error-mapping round trips over a generated wrapping family, and inline-vs-gRPC comparison of server-side rejections (empty key, injected no-space) for contents from 0 bytes to 4 MiB; keys of 5000 and 70000 bytes; Begin without a level; thorough tier: handles held open for 50 s on both clients; a 25-call script per key through both clients over a grid of UTF-8 keys (rune widths 1-4, lengths 16-65536); gRPC handles whose Open context is done; failing metadata writes inside histories; ends retried after a dead-context attempt; readers with different views of one key on one handle at once; several handles to one server opened and closed independently; partly consumed sources; snapshot taken at Begin; key listings of 300-1100 keys through both clients",
          "The gRPC client is compared with the model the inline client is compared with (same histories), and every wire sentinel survives Error->ClientError under all generated wrappings.", "trusted: reference model; loopback TCP", "3/C11"),
  "C13": ("exploration", "differential runtime monitoring: late operations through ended / never-begun transaction handles (inline and gRPC; never-begun ones also under names that are not UUID-shaped), probes by all actors and after reopen, vs reference model; plus a concurrent role (other goroutines read through a transaction while it ends; reads issued afterwards must fail); finished handles probed while 4-16 goroutines begin and end transactions; ends attempted with a cancelled context; large late uploads; identifiers of ended transactions used again after a restart and new Begins; connection cut (TCP forwarder) exactly while Rollback / Commit is sent",
          "Every late call class and every probe after it equals the model; late writes being accepted is a recorded known finding, every other deviation is reported.", "trusted: reference model", "3/C13"),
